@@ -3,7 +3,7 @@ from __future__ import annotations
 
 import ast
 
-from ..astq import (arg, canon, const, ext_names, handler_catches_all, handler_classes, inside, is_name, loc, names_in,
+from ..astq import (comes_before, arg, canon, const, ext_names, handler_catches_all, handler_classes, inside, is_name, loc, names_in,
                     stmt_of, in_body)
 from ..cfg import CFG, any_call_may_raise
 from ..model import AnalysisError, Func, head, norm
@@ -98,8 +98,15 @@ def rule_prune_before_execute(ctx, rid, r):
         rn = arg(c, None, "required_nodes")
         ok = on is not None and isinstance(on, ast.Name)
         if ok:
-            b = [b for b in run.bindings.get(on.id, []) if b[0] == "assign"]
-            ok = any(isinstance(e, ast.IfExp) and "gather" in norm(e.body) or "gather" in norm(e) for _k, e, _p in b)
+            # every value that can reach this argument is what gathering the output specification produced (or None: no output)
+            from ..cfg import value_sources
+            gn = roles.gather_names(m)
+            leaves = value_sources(run, g, on.id, c, run.module)
+
+            def gathered(leaf):
+                return leaf[0] == "expr" and ((isinstance(leaf[1], ast.Call) and isinstance(leaf[1].func, ast.Attribute) and leaf[1].func.attr in gn)
+                                              or (isinstance(leaf[1], ast.Constant) and leaf[1].value is None))
+            ok = bool(leaves) and all(gathered(l_) for l_ in leaves) and any(isinstance(l_[1], ast.Call) for l_ in leaves)
         ctx.ob(rid, f"{run.short}/prune-output", bool(ok), loc(run, c),
                "prune_plan is given the gathered output node" if ok else "prune_plan is not given the gathered output node", norm(c))
         ok = rn is not None and norm(rn) in ("[]", "()", "set()")
@@ -601,48 +608,82 @@ def rule_nothing_swallows_interrupt(ctx, rid, r):
 
 # ------------------------------------------------------------------------------------------------ C17.K4
 def rule_sentinel_priority(ctx, rid, r):
+    """Default scheduler, evaluated: the queue factory is interpreted for scheduler None / 'default' on a small graph (the function
+    that ranks the nodes of the graph is replaced by a model assigning the ranks 0, 1, 2 ...; heapq is modelled through the
+    entries' own `__lt__`).  Whatever is queued, an object the ranking does not know - the engine's sentinel - comes out first:
+    after Ctrl-C workers see a sentinel before they take another node."""
+    from ..absval import AbsRaise, Interp, Obj, Stub
+    from .rewriterules import MG
+    import collections as _c
     m = ctx.model
     qf = r.er.queue_factory
-    lams = [f for f in qf.nested if isinstance(f.node, ast.Lambda)]
-    found = False
-    for lam in lams:
-        b = lam.node.body
-        if isinstance(b, ast.Call) and isinstance(b.func, ast.Attribute) and b.func.attr == "get" and len(b.args) == 2:
-            found = True
-            d = b.args[1]
-            v = None
-            if isinstance(d, ast.UnaryOp) and isinstance(d.op, ast.USub) and isinstance(d.operand, ast.Constant):
-                v = -d.operand.value
-            elif isinstance(d, ast.Constant):
-                v = d.value
-            # minimum of the mapping's values: built by enumerate(...) starting at 0
-            mp = b.func.value
-            okmap = False
-            if isinstance(mp, ast.Name):
-                bs = [x for x in qf.bindings.get(mp.id, []) if x[0] == "assign"]
-                if len(bs) == 1 and isinstance(bs[0][1], ast.Call):
-                    for g in m.callee_funcs(qf, bs[0][1]):
-                        rets = [n for n in g.own_nodes() if isinstance(n, ast.Return) and n.value is not None]
-                        if len(rets) == 1 and isinstance(rets[0].value, ast.DictComp):
-                            dc = rets[0].value
-                            it = dc.generators[0].iter
-                            if isinstance(it, ast.Call) and is_name(it.func, "enumerate") and len(it.args) == 1 and not it.keywords \
-                                    and isinstance(dc.generators[0].target, ast.Tuple) and norm(dc.value) == norm(dc.generators[0].target.elts[0]):
-                                okmap = True
-            ok = okmap and isinstance(v, (int, float)) and v < 0
-            ctx.ob(rid, f"{qf.short}/sentinel-priority", ok, loc(qf, lam.node),
-                   f"items absent from the priority map (the sentinel) get priority {v} < 0 = minimum node priority" if ok else
-                   "the sentinel's default priority is not strictly below every node priority: after Ctrl-C workers keep "
-                   "taking nodes before they see a sentinel", norm(lam.node))
-    if not found:
-        raise AnalysisError("priority lambda of the default scheduler not found")
-    # KeyValuePair ordering is by key only
-    kv = [c for c in m.classes.values() if c.name == "KeyValuePair"]
-    for c in kv:
-        lt = c.methods.get("__lt__")
-        ok = lt is not None and any(isinstance(n, ast.Return) and norm(n.value) == f"{lt.pos_params[0]}.key < {lt.pos_params[1]}.key" for n in lt.own_nodes())
-        ctx.ob(rid, f"{c.name}/orders-by-key", ok, loc(lt) if lt else "", "heap order is by priority key (smaller first)" if ok else
-               "heap entries are not ordered by key")
+    gp = qf.pos_params[0]
+    # the ranking: calls in the factory that hand the graph to a repo function of another module
+    rankers = set()
+    for c in qf.own_calls():
+        if any(is_name(a_, gp) for a_ in c.args):
+            rankers |= {f for f in m.callee_funcs(qf, c) if f.module is not qf.module and f.cls is None}
+    bad, n_eval = [], 0
+    for sched in (None, "default"):
+        for order in ((0, 1, 2), (2, 1, 0), (1, 2, 0)):
+            interp = Interp(m)
+
+            def lt(a_, b_):
+                return interp.truth(interp.call(interp.getattr(a_, "__lt__"), [b_], {})) if isinstance(a_, Obj) else a_ < b_
+
+            def heappop(lst):
+                if not lst:
+                    raise AbsRaise("IndexError: heap empty")
+                best = 0
+                for i in range(1, len(lst)):
+                    if lt(lst[i], lst[best]):
+                        best = i
+                return lst.pop(best)
+            interp.ext.update({"heapq.heapify": lambda lst: None, "heapq.heappush": lambda lst, x: lst.append(x), "heapq.heappop": heappop,
+                               "queue.Queue": lambda maxsize=0: Obj(None, {"queue": _c.deque(), "unfinished_tasks": 0}, name="Queue")})
+            g = MG(interp)
+            nodes = [Obj(None, {}, name=f"n{i}") for i in range(3)]
+            for x in nodes:
+                g.add_node(x)
+            interp.func_stubs = {f: (lambda graph, _n=nodes: {x: i for i, x in enumerate(_n)}) for f in rankers}
+            sentinel = Obj(None, {}, name="DONE")
+            try:
+                q = interp.call_func(qf, None, [g, [nodes[order[0]]], sched], {})
+                if not isinstance(q, Obj) or q.cls is None:
+                    raise AnalysisError("the default scheduler does not build one of the repo's queue classes")
+                put, get = q.cls.lookup("_put"), q.cls.lookup("_get")
+                interp.call_func(put, None, [nodes[order[1]]], {}, bound_self=q)
+                interp.call_func(put, None, [sentinel], {}, bound_self=q)
+                interp.call_func(put, None, [nodes[order[2]]], {}, bound_self=q)
+                first = interp.call_func(get, None, [], {}, bound_self=q)
+                rest = [interp.call_func(get, None, [], {}, bound_self=q) for _ in range(3)]
+            except AbsRaise as e:
+                raise AnalysisError(f"abstract evaluation of the default scheduler raised {e.value!r}")
+            n_eval += 1
+            if first is not sentinel:
+                bad.append(f"scheduler={sched!r}: with nodes of ranks {order} queued around it, the sentinel came out after {getattr(first, 'name', first)}")
+            elif [getattr(x, "name", x) for x in rest] != ["n0", "n1", "n2"]:
+                bad.append(f"scheduler={sched!r}: nodes come out as {[getattr(x, 'name', x) for x in rest]}, not by rank")
+    ok = not bad
+    ctx.ob(rid, f"{qf.short}/sentinel-priority", ok, loc(qf),
+           f"evaluated ({n_eval} queues): an item the ranking does not know (the sentinel) is dequeued before every node; nodes by rank" if ok else
+           "the sentinel's priority is not strictly below every node priority: after Ctrl-C workers keep taking nodes before they see a "
+           "sentinel (" + "; ".join(bad[:2]) + ")")
+    # the ranks are 0, 1, 2, ...: the ranking function builds its mapping by enumerate(...) (so a negative default is below all)
+    for f in rankers:
+        rets = [n for n in f.own_nodes() if isinstance(n, ast.Return) and n.value is not None]
+        okmap = False
+        if len(rets) == 1 and isinstance(rets[0].value, ast.DictComp):
+            dc = rets[0].value
+            it = dc.generators[0].iter
+            # {node: index for index, node in enumerate(...)}: the value is the position itself - an int, comparable with the
+            # sentinel's numeric priority
+            if isinstance(it, ast.Call) and is_name(it.func, "enumerate") and len(it.args) == 1 and not it.keywords \
+                    and isinstance(dc.generators[0].target, ast.Tuple) and norm(dc.value) == norm(dc.generators[0].target.elts[0]):
+                okmap = True
+        ctx.ob(rid, f"{f.short}/ranks-from-zero", okmap, loc(f), "node ranks are positions 0, 1, 2 ... (the enumerate index): numbers, never negative" if okmap else
+               "node ranks are not plain positions built by enumerate(...): a rank may not be comparable with - or may be below - the sentinel's priority "
+               "(the sentinel push then raises TypeError in the engine's finally, or workers keep taking nodes after Ctrl-C)")
 
 
 # ------------------------------------------------------------------------------------------------ C17.K5
@@ -652,7 +693,7 @@ def rule_observer_exit(ctx, rid, r):
     calls = f.own_calls()
     sets = [c for c in calls if isinstance(c.func, ast.Attribute) and c.func.attr == "set"]
     joins = [c for c in calls if isinstance(c.func, ast.Attribute) and c.func.attr == "join"]
-    ok = len(sets) == 1 and len(joins) == 1 and sets[0].lineno < joins[0].lineno and not joins[0].args and not joins[0].keywords
+    ok = len(sets) == 1 and len(joins) == 1 and comes_before(f.node, sets[0], joins[0]) and not joins[0].args and not joins[0].keywords
     ctx.ob(rid, f"{f.short}/set-then-join", ok, loc(f), "__exit__ sets the done event, then joins the update thread without timeout" if ok else
            "__exit__ does not (set done event; join update thread)")
     ok = not any(isinstance(n, (ast.If, ast.Try, ast.Return)) for n in f.own_nodes())
@@ -680,12 +721,28 @@ def rule_run_uses_returned_pair(ctx, rid, r):
         if not ok:
             continue
         pn, on = (x.id for x in st.targets[0].elts)
+        from ..cfg import value_sources
+        g_ = CFG(run, may_raise=any_call_may_raise)
         for x in calls_to(m, run, r.run_physical):
             a0 = arg(x, 0, "plan")
             ao = arg(x, None, "output_node")
-            ok = is_name(a0, pn) and is_name(ao, on)
+            ok = isinstance(a0, ast.Name) and isinstance(ao, ast.Name)
+            if ok:
+                # what reaches the execution: the two elements of the transformation's result (possibly passed through the user's
+                # transform_physical), never the plan / output node from before the transformation on this arm
+                def from_result(leaf, idx):
+                    if leaf[0] == "elem" and leaf[1] is c and leaf[2] == idx:
+                        return "apply"
+                    if leaf[0] == "elem" and isinstance(leaf[1], ast.Call) and leaf[2] == idx and isinstance(leaf[1].func, ast.Name) and \
+                            m.binding_scope(run, leaf[1].func.id) is run and leaf[1].func.id in run.params:
+                        return "user-transform"
+                    return None
+                pl = value_sources(run, g_, a0.id, x, run.module)
+                ol = value_sources(run, g_, ao.id, x, run.module)
+                ok = any(from_result(l_, 0) == "apply" for l_ in pl) and any(from_result(l_, 1) == "apply" for l_ in ol) and \
+                    not [l_ for l_ in pl if l_[0] == "param"] and not [l_ for l_ in ol if l_[0] in ("param", "unknown")]
             ctx.ob(rid, f"{run.short}/executes-returned-pair", ok, loc(run, x),
-                   f"execution receives ({pn}, {on})" if ok else
+                   f"execution receives the plan and output node returned by the transformation" if ok else
                    "execution does not receive the transformed plan and the redirected output node", norm(x)[:120])
         oa = arg(c, None, "output_node")
         on_in = norm(oa) if oa is not None else None
